@@ -5,7 +5,7 @@
     dictionary-like store changes no answer. *)
 From Coq Require Import List ZArith String Bool.
 From Memento Require Import Base.Strs Storage.Cache Storage.Spec Storage.Layer Storage.LayerProofs
-  Gen.SourceFacts Gen.FactsOK.
+  Gen.SourceFacts Gen.FactsCache.
 Import ListNotations.
 Open Scope Z_scope.
 
